@@ -641,6 +641,21 @@ func (o *oracles) memOptedOut(y *rCtr) bool {
 	return o.balloonTypePinMemoryOff(y)
 }
 
+// c12Cause labels a told value of an opted-out container with the one earlier
+// defect, if any, that explains it (each is a recorded finding of C05/C13).
+func (o *oracles) c12Cause(y *rCtr, toldNow string) string {
+	w := o.w
+	switch {
+	case w.revertFailedInc:
+		return " after-rejected-reconfigure-whose-revert-failed"
+	case w.failedReqInc:
+		return " after-failed-request"
+	case y.restarts > 0 && y.toldHist[toldNow]:
+		return " stale-persisted-after-restart"
+	}
+	return ""
+}
+
 func (o *oracles) checkC12(rep reporter, r *reply) {
 	w := o.w
 	one := func(id string, res *nri.LinuxResources, what string) {
@@ -660,6 +675,7 @@ func (o *oracles) checkC12(rep reporter, r *reply) {
 				} else if o.balloonsPreserveRule(y) {
 					why = "preserve-rule"
 				}
+				why += o.c12Cause(y, "cpus="+res.Cpu.Cpus)
 				rep("cpu-optout-honoured", "cpu-optout-honoured "+why+" via-"+r.kind, "%s of %s tells container %s (opted out of CPU pinning: %s) the cpuset %q", what, r.kind, id, why, res.Cpu.Cpus)
 			}
 		}
@@ -670,6 +686,7 @@ func (o *oracles) checkC12(rep reporter, r *reply) {
 				if w.memPreserved(y) {
 					why = "memory.preserve"
 				}
+				why += o.c12Cause(y, "mems="+res.Cpu.Mems)
 				rep("mem-optout-honoured", "mem-optout-honoured "+why+" via-"+r.kind, "%s of %s tells container %s (opted out of memory pinning: %s) the memory nodes %q, it had %q", what, r.kind, id, why, res.Cpu.Mems, y.init.Mems)
 			}
 		}
@@ -771,11 +788,16 @@ func (o *oracles) checkC14(rep reporter, r *reply) {
 // (topology-aware reinstates grants verbatim, F11/F24); a configuration update
 // was rejected and reverted in this incarnation (F16); an accepted
 // reconfiguration happened in this incarnation.
+func (o *oracles) cacheCpusetEmpty(y *rCtr) bool {
+	c, ok := o.w.cache().LookupContainer(y.spec.ID)
+	return ok && c.GetCpusetCpus() == "" && o.w.cfg.PinCPU && !o.w.cpuPreserved(y)
+}
+
 func (o *oracles) withCause(rep0 reporter) reporter {
 	return func(clause, sig string, format string, a ...any) {
 		w := o.w
 		has := false
-		for _, m := range []string{"victim-", "class-changed", "sliced-by-ancestor", "pool-without", "after-rejected", "allocated-under", "after-reconfiguration"} {
+		for _, m := range []string{"victim-", "class-changed", "sliced-by-ancestor", "pool-without", "after-rejected", "allocated-under", "after-reconfiguration", "stale-pinning-of-grant"} {
 			if strings.Contains(sig, m) {
 				has = true
 			}
@@ -787,6 +809,11 @@ func (o *oracles) withCause(rep0 reporter) reporter {
 				sig += " victim-lost-grant-in-" + y.lostGrant
 			case y != nil && y.cfgAtAlloc != nil && y.cfgAtAlloc != w.cfg:
 				sig += " allocated-under-previous-configuration"
+			case y != nil && o.cacheCpusetEmpty(y) && y.t.Cpus != "":
+				// F10: the grant's allowed set is empty, the plugin records an
+				// empty cpuset, which NRI cannot express: the runtime keeps the
+				// container's previous pinning
+				sig += " stale-pinning-of-grant-with-empty-cpuset"
 			case w.rejectedReconf:
 				sig += " after-rejected-reconfigure"
 			case w.reconfiguredInc:
